@@ -137,11 +137,14 @@ func WriteFile(p string, data []byte, perm fs.FileMode) error {
 		return pathErr("open", p, fs.ErrNotExist)
 	}
 	name := path.Base(p)
+	// the file owns its bytes (the caller's slice must not alias the file content)
+	own := make([]byte, len(data))
+	copy(own, data)
 	if c := dir.child(name); c != nil {
-		c.Data = data
+		c.Data = own
 		return nil
 	}
-	dir.add(&Node{Name: name, Mode: perm, Data: data, Mtime: time.Unix(0, 0).UTC()})
+	dir.add(&Node{Name: name, Mode: perm, Data: own, Mtime: time.Unix(0, 0).UTC()})
 	return nil
 }
 
@@ -314,11 +317,7 @@ func ReadFile(name string) ([]byte, error) {
 	return out, nil
 }
 
-func OsWriteFile(name string, data []byte, perm fs.FileMode) error {
-	d := make([]byte, len(data))
-	copy(d, data)
-	return WriteFile(name, d, perm)
-}
+func OsWriteFile(name string, data []byte, perm fs.FileMode) error { return WriteFile(name, data, perm) }
 
 func Remove(name string) error {
 	n := lookup(name, false)
